@@ -149,7 +149,7 @@ class CodeObject:
         return variable
 
     def define(self, obj, expression, no_inline=False, force_inline=False):
-        if self.max_usage_num[obj] > 1:
+        if self.max_usage_num[obj] > 1 and not force_inline:
             no_inline = True
 
         if no_inline and force_inline:
@@ -331,7 +331,7 @@ def compile(object, return_code=False):
                 def to_code(value_to_code):
                     return f"getattr({value_to_code(obj)}, {value_to_code(key)})"
 
-            code.define(origin.output, Inlined(to_code, inputs=[obj, key], block=code.get_block_for(origin.output)))
+            code.define(origin.output, Inlined(to_code, inputs=[obj, key], block=code.get_block_for(origin.output)), force_inline=True)
 
         elif isinstance(origin, tracer.signature.python.GetItem):
             # ################## __getitem__ ##################
@@ -419,7 +419,7 @@ def compile(object, return_code=False):
             # ################## builtin ##################
             name = origin.name
             to_code = lambda value_to_code: name  # TODO: check if name is in scope. Option 1: prevent this. Option 2: import builtins
-            code.define(origin.output, Inlined(to_code, inputs=[], block=code.get_block_for(origin.output)))
+            code.define(origin.output, Inlined(to_code, inputs=[], block=code.get_block_for(origin.output)), force_inline=True)
 
         elif isinstance(origin, tracer.Cast):
             # ################## tracer.cast ##################
